@@ -30,6 +30,41 @@ Compared
 A real-vs-evaluator difference is the business of checks/parts/evaldiff.py (C02 violation); here it
 shows up as (2) or (3).  level = 1: fragment F1 (straight-line), 2: F2 (+ && || loops print).
 Env COMPILETIE_RUN overrides the runner binary (used to try a model before installing it).
+
+LEVEL 3 (run_compiletie3, engine build/ocaml/compile3 = coq/Src/Compile3.v + coq/VM/ValueVM3.v, the
+stage-3 model with frames; levels 1 and 2 stay on the stage-2 model the closed theorems are about):
+Pipeline: `build/ocaml/compile3/run gen <seed> <first> <k> <dir> <level>` (16 chunks in parallel)
+generates programs of the fragment (harness/ocaml/compile3/cgen.ml: level 3 = several top-level
+functions, calls, recursion to depth 300, self tail calls, faults in callees, argument-order probes), pretty-prints them and writes,
+per case, the model's WHOLE module image (extracted `compile_program`: global prelude, entry stub,
+stdlib bodies, every function of the program; linked, i.e. with absolute MARK / ID_FUNC_ADDR
+operands), its exception table, the result of the extracted ValueVM (from the entry stub to HALT or
+UNHANDLED_EXCEPTION, with the peak stack depth and the number of instructions executed) and the
+result of the extracted reference evaluator (Src/Eval.v).  Every program is then compiled by the
+tree's real compiler (harness/vm/bcdump.c through lib/vmcheck.VmTools) and run by the real VM with
+the same arguments (stack 40000 slots, 400000 cells).
+
+Compared
+  (1) code: the real module's whole code array with the model's image, instruction by instruction:
+      opcode and the operand words that the opcode uses (INT value; ID_LOCAL stack_level,index;
+      JUMPZ/JUMP offset; SLIDE q,m; MARK return address; ID_FUNC_ADDR function address; GLOBAL_VEC
+      count; ALLOC n; REWRITE j; BUILD_IN id).  The operand of LINE (a source line number, ignored
+      by the modelled VM) and the stale words the emitter leaves in operand-less instructions are
+      not compared.  Also: the exception table (all entries), the module's entry address, and the
+      address of every function of the program (`F` lines of the dump, which name every function
+      region: the image covers them all).
+         difference -> ctx.correspondence_broken("compile-model-vs-emit.c", first difference + program)
+  (2) run: the real VM's result / unhandled exception / printed numbers with ValueVM's; the real
+      peak sp with the model's peak flat stack length - 1; the real number of executed instructions
+      with the model's + the length of the global prelude (which the model does not execute)
+         difference -> ctx.correspondence_broken("valuevm-vs-vmexec.c", …)
+  (3) the extracted evaluator's outcome with ValueVM's (this is what the theorems
+      compile_program_correct_F* state; a difference would refute the proof's statement)
+         difference -> ctx.correspondence_broken("valuevm-vs-evaluator", …)
+  a generated program outside the fragment predicate or rejected by the real compiler
+         -> ctx.correspondence_broken("compile-generator", …)
+A real-vs-evaluator difference is the business of checks/parts/evaldiff.py (C02 violation); here it
+shows up as (2) or (3).  Env COMPILETIE_RUN3 overrides the level-3 runner binary.
 """
 import concurrent.futures
 import os
@@ -40,6 +75,7 @@ import tempfile
 from lib import common, vmcheck
 
 RUN = os.environ.get("COMPILETIE_RUN") or os.path.join(common.BUILD, "ocaml", "compile", "run")
+RUN3 = os.environ.get("COMPILETIE_RUN3") or os.path.join(common.BUILD, "ocaml", "compile3", "run")
 NPROC = 16
 
 EXC_NAMES = {1: "division_by_zero", 2: "wrong_array_size", 3: "index_out_of_bounds", 4: "invalid_domain",
@@ -99,6 +135,8 @@ def real_outcome(d):
 
 
 def run_compiletie(ctx, n, seed, level=1, keep=None):
+    if level >= 3:
+        return run_compiletie3(ctx, n, seed, level, keep)
     ok, log = common.ocaml_build("compile")
     if not ok or not os.path.exists(RUN):
         ctx.correspondence_broken("compile-engine-build", log[-2000:])
@@ -230,6 +268,210 @@ def run_compiletie(ctx, n, seed, level=1, keep=None):
     ctx.count(evaluations=res["programs"], nontrivial=ndist)
     ctx.notes["compiletie_level%d" % level] = {
         "programs": res["programs"], "code_equal": res["equal"], "instructions_compared": res["instructions"],
+        "distinct_code_regions": ndist, "run_equal": res["run_equal"], "runs_ending_in_exception": res["faults"],
+        "opcodes": res["opcodes"]}
+    return res
+
+
+# ---- level 3: whole module image, frames ------------------------------------------------------
+def meaningful3(names):
+    """opcode number -> number of operand words compared"""
+    use = {}
+    for i, n in enumerate(names):
+        s = n.replace("BYTECODE_", "")
+        if s == "INT":
+            use[i] = 1
+        elif s in ("ID_LOCAL", "SLIDE"):
+            use[i] = 2
+        elif s in ("JUMPZ", "JUMP", "MARK", "ID_GLOBAL", "GLOBAL_VEC", "ID_FUNC_ADDR", "BUILD_IN", "CLEAR_STACK",
+                   "ALLOC", "REWRITE"):
+            use[i] = 1
+        else:
+            use[i] = 0
+    return use
+
+
+def parse_model3(path):
+    cases, cur = [], None
+    for l in open(path):
+        if l.startswith("@@CASE"):
+            p = l.split()
+            kv = dict(x.split("=", 1) for x in p[2:])
+            cur = {"i": int(p[1]), "level": int(kv["level"]), "in_fragment": kv["in_fragment"] == "1",
+                   "args": [a for a in kv["args"].split(",") if a != ""], "code": [], "V": None, "E": None,
+                   "exct": [], "entry": None, "main": None, "peak": None, "steps": None}
+        elif l.startswith("C ") and cur is not None:
+            p = l.split()
+            cur["code"].append((int(p[1]), int(p[2]), int(p[3])))
+        elif l.startswith("X ") and cur is not None:
+            p = l.split()
+            cur["exct"].append((int(p[1]), int(p[2])))
+        elif l.startswith("M ") and cur is not None:
+            kv = dict(x.split("=", 1) for x in l.split()[1:])
+            cur["entry"], cur["main"] = int(kv["entry"]), int(kv["main"])
+        elif l.startswith("V ") and cur is not None:
+            m = re.match(r"^(.*?)\s+peak=(\d+) steps=(\d+)$", l[2:].strip())
+            cur["V"], cur["peak"], cur["steps"] = m.group(1), int(m.group(2)), int(m.group(3))
+        elif l.startswith("E ") and cur is not None:
+            cur["E"] = l[2:].strip()
+        elif l.startswith("@@END") and cur is not None:
+            cases.append(cur)
+            cur = None
+    return cases
+
+
+def run_compiletie3(ctx, n, seed, level=3, keep=None):
+    ok, log = common.ocaml_build("compile3")
+    if not ok or not os.path.exists(RUN3):
+        ctx.correspondence_broken("compile-engine-build", log[-2000:])
+        return None
+    tools = vmcheck.VmTools("plain")
+    names = vmcheck.opcode_names()
+    use = meaningful3(names)
+    rethrow = names.index("BYTECODE_RETHROW")
+    line_op = names.index("BYTECODE_LINE")
+    mark_op = names.index("BYTECODE_MARK")
+    funcaddr_op = names.index("BYTECODE_ID_FUNC_ADDR")
+    tmp = tempfile.mkdtemp(prefix="nvct.", dir="/var/tmp")
+    res = {"programs": 0, "equal": 0, "instructions": 0, "run_equal": 0, "faults": 0, "opcodes": {},
+           "functions": 0, "max_depth": 0, "max_peak": 0,
+           "code_diffs": [], "run_diffs": [], "eval_diffs": [], "gen_problems": [], "distinct": set()}
+    try:
+        chunk = max(1, (n + NPROC - 1) // NPROC)
+        jobs = []
+        for k in range(NPROC):
+            first = k * chunk
+            cnt = min(chunk, n - first)
+            if cnt <= 0:
+                break
+            d = os.path.join(tmp, "j%d" % k)
+            os.makedirs(d)
+            jobs.append((first, cnt, d))
+
+        def gen(job):
+            first, cnt, d = job
+            cmd = "ulimit -s unlimited 2>/dev/null || ulimit -s 4000000 2>/dev/null; exec '%s' gen %d %d %d '%s' %d" % (
+                RUN3, seed, first, cnt, d, level)
+            rc, so, se = common.sh(["bash", "-c", cmd], timeout=900)
+            return rc, se, d
+
+        def one(arg):
+            d, c = arg
+            path = os.path.join(d, "c%d.nev" % c["i"])
+            extra = []
+            for a in c["args"]:
+                extra += ["--arg", a]
+            dump, rc, err = tools.dump("ct%d" % c["i"], path, d, trace=True, max_steps=2000000,
+                                       extra=["--peak", "--stack", "40000", "--mem", "400000"] + extra)
+            dd = vmcheck.read_dump(dump)
+            dd["peak"] = None
+            try:
+                for l in open(dump, errors="replace"):
+                    if l.startswith("PEAK "):
+                        dd["peak"] = l.strip()
+            except OSError:
+                pass
+            try:
+                os.unlink(dump)
+            except OSError:
+                pass
+            return c, path, dd, err
+
+        work = []
+        with concurrent.futures.ThreadPoolExecutor(NPROC) as ex:
+            for rc, se, d in ex.map(gen, jobs):
+                if rc != 0:
+                    res["gen_problems"].append({"what": "generator failed", "log": se[-1500:]})
+                    continue
+                for c in parse_model3(os.path.join(d, "model.txt")):
+                    work.append((d, c))
+            for c, path, dd, err in ex.map(one, work):
+                res["programs"] += 1
+                src = open(path).read()
+                case = {"case": c["i"], "seed": seed, "level": level, "args": c["args"], "source": src}
+                if not c["in_fragment"]:
+                    res["gen_problems"].append(dict(case, what="generated program outside the fragment predicate"))
+                    continue
+                if dd["compile"] != 0:
+                    res["gen_problems"].append(dict(case, what="real compiler rejects the program", log=err[-800:]))
+                    continue
+                f = [x for x in dd["funcs"] if x[4] == "main"]
+                if len(f) != 1:
+                    res["gen_problems"].append(dict(case, what="no unique main in the dump"))
+                    continue
+                real = dd["code"]
+                model = c["code"]
+                user_first = min([x[0] for x in dd["funcs"][30:]] or [0])
+                diff = None
+                for k in range(max(len(real), len(model))):
+                    if k >= len(real) or k >= len(model):
+                        diff = (k, real[k] if k < len(real) else None, model[k] if k < len(model) else None)
+                        break
+                    r, m = real[k], model[k]
+                    nw = use.get(r[0], 0)
+                    if r[0] != m[0] or tuple(r[1:1 + nw]) != tuple(m[1:1 + nw]):
+                        diff = (k, r, m)
+                        break
+                if diff is None and list(dd["exct"]) != list(c["exct"]):
+                    bad = [k for k in range(max(len(dd["exct"]), len(c["exct"])))
+                           if k >= len(dd["exct"]) or k >= len(c["exct"]) or dd["exct"][k] != c["exct"][k]][0]
+                    res["code_diffs"].append(dict(case, at="exception table entry %d" % bad,
+                                                  real=dd["exct"][bad] if bad < len(dd["exct"]) else None,
+                                                  model=c["exct"][bad] if bad < len(c["exct"]) else None))
+                    continue
+                if diff is None and (dd["entry"] != c["entry"] or f[0][0] != c["main"]):
+                    res["code_diffs"].append(dict(case, at="entry addresses", real=(dd["entry"], f[0][0]),
+                                                  model=(c["entry"], c["main"])))
+                    continue
+                if diff is not None:
+                    k, r, m = diff
+                    res["code_diffs"].append(dict(case, at=k,
+                                                  real=(names[r[0]], r[1], r[2]) if r else None,
+                                                  model=(names[m[0]], m[1], m[2]) if m else None))
+                    continue
+                res["equal"] += 1
+                res["instructions"] += len(real)
+                res["functions"] += len(dd["funcs"]) - 30
+                for r in real[user_first:]:
+                    res["opcodes"][names[r[0]]] = res["opcodes"].get(names[r[0]], 0) + 1
+                res["distinct"].add(tuple((r[0],) + tuple(r[1:1 + use.get(r[0], 0)]) for r in real[user_first:]))
+                ro = real_outcome(dd)
+                pk = re.search(r"PEAK sp=(-?\d+) maxdepth=(\d+) steps=(\d+)", dd.get("peak") or "")
+                rpeak, rdepth, rsteps = (int(pk.group(1)), int(pk.group(2)), int(pk.group(3))) if pk else (None, None, None)
+                res["max_depth"] = max(res["max_depth"], rdepth or 0)
+                res["max_peak"] = max(res["max_peak"], rpeak or 0)
+                if ro != c["V"]:
+                    res["run_diffs"].append(dict(case, real=ro, valuevm=c["V"], evaluator=c["E"]))
+                elif rpeak is None or rpeak != c["peak"] - 1 or rsteps != c["steps"] + c["entry"]:
+                    res["run_diffs"].append(dict(case, what="peak sp / instruction count", real=(rpeak, rsteps),
+                                                 valuevm=(c["peak"] - 1, c["steps"] + c["entry"])))
+                else:
+                    res["run_equal"] += 1
+                    if ro.startswith("exc"):
+                        res["faults"] += 1
+                if c["V"] != c["E"]:
+                    res["eval_diffs"].append(dict(case, valuevm=c["V"], evaluator=c["E"], real=ro))
+    finally:
+        tools.close()
+        if keep:
+            shutil.copytree(tmp, keep, dirs_exist_ok=True)
+        shutil.rmtree(tmp, ignore_errors=True)
+
+    if res["gen_problems"]:
+        ctx.correspondence_broken("compile-generator", {"count": len(res["gen_problems"]), "first": res["gen_problems"][0]})
+    if res["code_diffs"]:
+        ctx.correspondence_broken("compile-model-vs-emit.c", {"count": len(res["code_diffs"]), "first": res["code_diffs"][0]})
+    if res["run_diffs"]:
+        ctx.correspondence_broken("valuevm-vs-vmexec.c", {"count": len(res["run_diffs"]), "first": res["run_diffs"][0]})
+    if res["eval_diffs"]:
+        ctx.correspondence_broken("valuevm-vs-evaluator", {"count": len(res["eval_diffs"]), "first": res["eval_diffs"][0]})
+    ndist = len(res["distinct"])
+    res["distinct"] = ndist
+    ctx.count(evaluations=res["programs"], nontrivial=ndist)
+    ctx.notes["compiletie_level%d" % level] = {
+        "programs": res["programs"], "code_equal": res["equal"], "instructions_compared": res["instructions"],
+        "program_functions_compared": res["functions"], "deepest_frame_chain": res["max_depth"],
+        "largest_peak_sp": res["max_peak"],
         "distinct_code_regions": ndist, "run_equal": res["run_equal"], "runs_ending_in_exception": res["faults"],
         "opcodes": res["opcodes"]}
     return res
